@@ -322,3 +322,26 @@ def _run_async(w: World, st: Stack, op: Any, cancel_at: Optional[float], obs: Ob
                 task.cancel()
         loop.call_at(w.now + cancel_at, do_cancel)
     return loop.run_until_complete(task)
+
+
+# --- systematic sweeps (forced draws by label) -------------------------------------------------------------------------
+def _raw_for_weighted(weights: List[int], index: int) -> int:
+    """A raw draw value that a weighted(...) call maps to ``index``."""
+    return sum(weights[:index])
+
+
+def forced_script(kind: str, attempts: int, outcomes: List[str], strategy_variant: int = 0) -> Dict[str, List[int]]:
+    """Forced draws that pin request kind, number of attempts and the per-attempt outcome sequence of draw_scenario."""
+    kinds = ['single', 'batch', 'notify', 'batch_notify']
+    batch = kind.startswith('batch')
+    names = [o for o, ws, wb in OUTCOMES]
+    weights = [wb if batch else ws for o, ws, wb in OUTCOMES]
+    att_index = [2, 1, 0, 3, 4].index(attempts)
+    return {
+        'req.kind': [_raw_for_weighted([6, 4, 2, 1], kinds.index(kind))],
+        'strategy.placement': [_raw_for_weighted([5, 3, 1, 2, 1], 0)],      # client-wide
+        'backoff.attempts': [att_index, att_index],
+        'strategy.codes': [[0, 3][strategy_variant % 2]],                   # [LISTED] | [LISTED, LISTED2]
+        'strategy.exceptions': [[0, 3, 4][strategy_variant % 3]],           # conn | conn+timeout | timeout_base
+        'script.outcome': [_raw_for_weighted(weights, names.index(o)) for o in outcomes],
+    }
